@@ -159,6 +159,7 @@ type viewFact struct {
 
 type modLoc struct {
 	key    string // heap key
+	earr   Term   // for fields of the elements of a slice of structs: the backing array; lo, hi = element index range
 	ref    Term
 	lo, hi Term // for element memories: index range [lo,hi); for fields unused
 	isElem bool
@@ -1027,8 +1028,40 @@ func (e *Exec) allocRef(st *State, what string) Term {
 	return r
 }
 
+// Slices of (non-value) structs: element i of the backing array a is an OBJECT at the reference eref(a, i); its
+// fields live in the ordinary field maps. eref is injective and its values are negative, hence distinct from every
+// separately allocated object (those are positive) and from nil. &s[i] is that reference (interior pointer).
+func isObjElem(t types.Type) bool {
+	_, ok := types.Unalias(t).Underlying().(*types.Struct)
+	return ok && !isValueStruct(t)
+}
+
+func (e *Exec) needEref() {
+	if e.declared["eref"] {
+		return
+	}
+	e.mark("eref")
+	e.rawDecl("fun:eref", "(declare-fun eref (Int Int) Int)")
+	e.rawDecl("fun:einv1", "(declare-fun einv1 (Int) Int)")
+	e.rawDecl("fun:einv2", "(declare-fun einv2 (Int) Int)")
+	e.globalAxiom("(assert (forall ((a!e Int) (i!e Int)) (! (and (= (einv1 (eref a!e i!e)) a!e) (= (einv2 (eref a!e i!e)) i!e) (< (eref a!e i!e) 0)) :pattern ((eref a!e i!e)))))")
+}
+
+func (e *Exec) elemRef(s Term, i Term) Term {
+	e.needEref()
+	return mk(SInt, "eref", SRef(s), ElemIdx(s, i))
+}
+
+// isErefIn: x is the reference of an element of array a with index in [lo,hi)
+func isErefIn(x, a, lo, hi Term) Term {
+	return And(Eq(mk(SInt, "einv1", x), a), Le(lo, mk(SInt, "einv2", x)), Lt(mk(SInt, "einv2", x), hi), Eq(x, mk(SInt, "eref", mk(SInt, "einv1", x), mk(SInt, "einv2", x))))
+}
+
 // loadElem reads s[i] (no bounds obligation here).
 func (e *Exec) loadElem(st *State, s Term, elemT types.Type, i Term) Term {
+	if isObjElem(elemT) {
+		return e.loadObject(st, elemT, e.elemRef(s, i))
+	}
 	key := elemKey(elemT)
 	e.heapInit(key, elemT)
 	m := e.heapMetas[key]
@@ -1037,6 +1070,10 @@ func (e *Exec) loadElem(st *State, s Term, elemT types.Type, i Term) Term {
 }
 
 func (e *Exec) storeElem(st *State, s Term, elemT types.Type, i Term, v Term) {
+	if isObjElem(elemT) {
+		e.storeObject(st, elemT, e.elemRef(s, i), v)
+		return
+	}
 	key := elemKey(elemT)
 	e.heapInit(key, elemT)
 	m := e.heapMetas[key]
